@@ -18,6 +18,8 @@ for m in re.finditer(r"^(C\d\d)/(\d) demo_unchanged=(\d+) demo_changed=(\d+) bas
     metas = json.load(open(os.path.join(src, "meta.json")))
     meta = next((x for x in metas if x.get("patch") == "patch_%s.diff" % k), {})
     dst = os.path.join(V, "seeded", "%s-%s" % (pid, k))
+    if os.path.exists(os.path.join(dst, "meta.json")):
+        continue  # already imported (its check_result may have been updated since): never overwrite
     os.makedirs(dst, exist_ok=True)
     shutil.copy(os.path.join(src, "patch_%s.diff" % k), os.path.join(dst, "patch.diff"))
     shutil.copy(os.path.join(src, "demo_%s.py" % k), os.path.join(dst, "demo.py"))
